@@ -91,6 +91,7 @@ class Rig:
         self.ctx.__enter__()
         self.traces: dict[int, dict] = {}
         self.events: list = []
+        self.ended: list = []      # OnEndPrompt events not yet reported
 
     # -- trace threads ---------------------------------------------------------------------
     def _worker(self, t: int, inbox: queue.Queue, st: dict) -> None:
@@ -163,9 +164,12 @@ class Rig:
         out = []
         while True:
             try:
-                out.append(self.qo.get_nowait())
+                e = self.qo.get_nowait()
             except queue.Empty:
                 return out
+            out.append(e)
+            if type(e).__name__ == 'OnEndPrompt':
+                self.ended.append(e)
 
     def close(self) -> None:
         # answer every open prompt so that the threads can finish
@@ -260,10 +264,10 @@ def _report(rig: Rig, openp: dict) -> str:
     while time.time() - t0 < 2:
         evs = rig.drain()
         rig.events += evs
-        for e in evs:
-            if type(e).__name__ == 'OnEndPrompt':
-                ex.append((e.trace_no, e.prompt_no, e.command))
-                openp.pop(e.trace_no, None)
+        for e in rig.ended:
+            ex.append((e.trace_no, e.prompt_no, e.command))
+            openp.pop(e.trace_no, None)
+        rig.ended.clear()
         pending = [t for t in openp if not rig.traces[t]['busy']]
         if not pending:
             break
@@ -457,7 +461,8 @@ def run(chk: common.Check) -> None:
         chk.cov.case(('real', repr(r['spec']['policy'])))
         chk.cov.count('kinds', 'real-child-with-decoys')
         if rec is None or not rec.get('finished'):
-            oracle_fail.append(({'real_run': r['spec']}, [f'run with decoys did not complete: {(rec or {}).get("errors")} {r["stderr"][-200:]}'], None))
+            oracle_fail.append(({'real_run': r['spec']}, [f'run with decoys did not complete: {(rec or {}).get("errors")} {r["stderr"][-200:]}'],
+                                {'stacks': (rec or {}).get('stacks'), 'stderr': r['stderr']}))
             continue
         msgs = []
         genuine = {(t, p): c for t, p, c in rec['commands_sent'] if 'DECOY' not in c}
@@ -490,4 +495,4 @@ def run(chk: common.Check) -> None:
         if disagreements:
             ops, k, m, im = min(disagreements, key=lambda d: len(d[0]))
             d = {'ops': ops, 'step': k, 'model': m, 'implementation': im}
-        chk.violation('C07: ' + broken[0], {'no_longer_checks': broken, 'shortest_disagreement': d}, no_input=True)
+        chk.violation('C07: ' + ' | '.join(broken[:3]), {'no_longer_checks': broken, 'shortest_disagreement': d}, no_input=True)
